@@ -1,4 +1,5 @@
 import Taskpool.Inv.GatherInv
+import Taskpool.Inv.MetaValid
 /-! `flush`, `gather_and_close`, `until_closed` keep the counting invariant of the gathers (`PInv`). -/
 namespace Taskpool
 namespace Pool
@@ -24,13 +25,15 @@ theorem AInv.of_frame {R} {p q : Pool} (h : AInv R p) (hgv : gv q = gv p) (ht : 
     (hr : ∀ t, t ∈ q.running → t ∈ p.running := by intro _ h; exact h)
     (hc : ∀ t, t ∈ q.cancelledR → t ∈ p.cancelledR := by intro _ h; exact h)
     (he : ∀ t, t ∈ q.ended → t ∈ p.ended := by intro _ h; exact h) : AInv R q := by
-  obtain ⟨hg, _, _⟩ := gv_fields hgv
+  obtain ⟨hg, _, hd, hrc⟩ := gv_fields hgv
   have hW := W_of_gv hgv R
-  refine ⟨⟨?_, ?_, ?_, ?_⟩, ?_, ?_⟩
+  refine ⟨⟨?_, ?_, ?_, ?_, ?_, ?_⟩, ?_, ?_⟩
   · intro g i; rw [hW, hg]; exact h.pinv.dom g i
   · intro g G; rw [hW, hg]; exact h.pinv.cnt g G
   · intro g G i t; rw [hg, ht]; exact h.pinv.reg g G i t
   · intro g G; rw [hg]; exact h.pinv.fin g G
+  · intro t g i; rw [hd, hg]; exact h.pinv.ownT t g i
+  · intro m g i; rw [hrc, hg]; exact h.pinv.ownS m g i
   · intro t k; rw [ht]; exact h.ofin t k
   · intro t hm
     rw [ht]
@@ -55,9 +58,10 @@ theorem RegValid.tame {p q : Pool} (h : RegValid p) (t : Tame p q) : RegValid q 
   exact ⟨q.tasks[i], by simp [this]⟩
 
 theorem AInv.gatherStart {R} {p : Pool} (h : AInv R p) (cs : List Child) (re : Bool) (owner n : Nat)
-    (hv : ∀ (i t : Nat), cs[i]? = some (.task t) → ∃ k : PTask, p.tasks[t]? = some k) :
+    (hv : ∀ (i t : Nat), cs[i]? = some (.task t) → ∃ k : PTask, p.tasks[t]? = some k)
+    (hvs : ∀ (i m : Nat), cs[i]? = some (.spawner m) → m < p.reqs.length) :
     AInv R (p.gatherStart cs re owner n).1 :=
-  ⟨h.pinv.gatherStart h.ofin cs re owner n hv, h.ofin.tame (tame_gatherStart p cs re owner n),
+  ⟨h.pinv.gatherStart h.ofin cs re owner n hv hvs, h.ofin.tame (tame_gatherStart p cs re owner n),
     h.rv.tame (tame_gatherStart p cs re owner n)⟩
 
 @[simp] theorem gv_finishApi (p : Pool) (a : Nat) (o : Outcome) : gv (p.finishApi a o) = gv p := gv_modApi _ _ _
@@ -81,6 +85,13 @@ theorem valid_of_regs (p : Pool) (h : RegValid p) (cs : List Child)
     ∀ (i t : Nat), cs[i]? = some (.task t) → ∃ k : PTask, p.tasks[t]? = some k :=
   fun _ t hi => h t (hcs t (List.mem_of_getElem? hi))
 
+/-- a gather over tasks only has no spawner child -/
+theorem task_children_noS (cs : List Child) (hcs : ∀ c ∈ cs, ∃ t, c = Child.task t) (n : Nat) :
+    ∀ (i m : Nat), cs[i]? = some (Child.spawner m) → m < n := by
+  intro i m hi
+  obtain ⟨t, ht⟩ := hcs _ (List.mem_of_getElem? hi)
+  cases ht
+
 theorem AInv.flushAfter1 {R} {p : Pool} (h : AInv R p) (a : Nat) (re : Bool) (o : Outcome) :
     AInv R (p.flushAfter1 a re o) := by
   unfold Pool.flushAfter1
@@ -97,6 +108,10 @@ theorem AInv.flushAfter1 {R} {p : Pool} (h : AInv R p) (a : Nat) (re : Bool) (o 
         rcases ht with x | x
         · exact Or.inl x
         · exact Or.inr (Or.inl x)))
+      (task_children_noS _ (by
+        intro c hc
+        simp only [List.mem_append, List.mem_map] at hc
+        rcases hc with ⟨t, _, rfl⟩ | ⟨t, _, rfl⟩ <;> exact ⟨t, rfl⟩) _)
     split
     · exact h3.flushAfter2 a _
     · exact h3.modApi a _
@@ -113,7 +128,17 @@ theorem spawner_children_valid (p : Pool) (a b : List Nat) : ∀ (i t : Nat),
   have := List.mem_of_getElem? hi
   simp at this
 
-theorem AInv.flushStage1 {R} {p : Pool} (h : AInv R p) (a : Nat) (re : Bool) : AInv R (p.flushStage1 a re) := by
+/-- the children of a gather over spawners exist: the cancelled ones by `MC`, the others as indices of the request list -/
+theorem spawner_children_lt (a b : List Nat) (n : Nat) (ha : ∀ m ∈ a, m < n) (hb : ∀ m ∈ b, m < n) : ∀ (i m : Nat),
+    (a.map Child.spawner ++ b.map Child.spawner)[i]? = some (Child.spawner m) → m < n := by
+  intro i m hi
+  have := List.mem_of_getElem? hi
+  simp only [List.mem_append, List.mem_map, Child.spawner.injEq, exists_eq_right] at this
+  rcases this with x | x
+  · exact ha m x
+  · exact hb m x
+
+theorem AInv.flushStage1 {R} {p : Pool} (h : AInv R p) (hmc : MC p) (a : Nat) (re : Bool) : AInv R (p.flushStage1 a re) := by
   unfold Pool.flushStage1
   simp only
   have h1 : AInv R ({ p with reqs := p.reqs.map fun (r : Req) =>
@@ -124,6 +149,8 @@ theorem AInv.flushStage1 {R} {p : Pool} (h : AInv R p) (a : Nat) (re : Bool) : A
     (p.metaCancelled.map Child.spawner ++ (indicesWhere p.reqs fun r => r.inRunning && r.outcome.isSome).map Child.spawner)
     re a (p.metaCancelled.map Child.spawner ++ (indicesWhere p.reqs fun r => r.inRunning && r.outcome.isSome).map Child.spawner).length
     (spawner_children_valid _ _ _)
+    (spawner_children_lt _ _ _ (fun m hm => by simp only [List.length_map]; exact hmc m hm)
+      (fun m hm => by simp only [List.length_map]; exact mem_indicesWhere_lt _ _ m hm))
   split
   · exact h2.flushAfter1 a re _
   · exact h2.modApi a _
@@ -160,11 +187,15 @@ theorem AInv.gacAfter1 {R} {p : Pool} (h : AInv R p) (a : Nat) (re : Bool) (g : 
         · exact Or.inl x
         · exact Or.inr (Or.inl x)
         · exact Or.inr (Or.inr x)))
+      (task_children_noS _ (by
+        intro c hc
+        simp only [List.mem_append, List.mem_map] at hc
+        rcases hc with (⟨t, _, rfl⟩ | ⟨t, _, rfl⟩) | ⟨t, _, rfl⟩ <;> exact ⟨t, rfl⟩) _)
     split
     · exact h3.gacAfter2 a _
     · exact h3.modApi a _
 
-theorem AInv.gacStage1 {R} {p : Pool} (h : AInv R p) (a : Nat) (re : Bool) : AInv R (p.gacStage1 a re) := by
+theorem AInv.gacStage1 {R} {p : Pool} (h : AInv R p) (hmc : MC p) (a : Nat) (re : Bool) : AInv R (p.gacStage1 a re) := by
   unfold Pool.gacStage1
   simp only
   have h1 : AInv R ({ ({ p with locked := true } : Pool) with ambiguous := p.ambiguous ||
@@ -174,6 +205,7 @@ theorem AInv.gacStage1 {R} {p : Pool} (h : AInv R p) (a : Nat) (re : Bool) : AIn
   have h2 := h1.gatherStart
     (p.metaCancelled.map Child.spawner ++ (indicesWhere p.reqs fun r => r.inRunning).map Child.spawner) true a 0
     (spawner_children_valid _ _ _)
+    (spawner_children_lt _ _ _ (fun m hm => hmc m hm) (fun m hm => mem_indicesWhere_lt _ _ m hm))
   split
   · exact h2.gacAfter1 a re _
   · exact h2.modApi a _
@@ -187,7 +219,7 @@ theorem AInv.untilClosedStart {R} {p : Pool} (h : AInv R p) (a : Nat) : AInv R (
     exact h1.modApi a _
 
 /-- **a step of a background call** (`flush`, `gather_and_close`, `until_closed`) keeps the invariant -/
-theorem AInv.stepApi {R} {p : Pool} (h : AInv R p) (a : Nat) : AInv R (p.stepApi a) := by
+theorem AInv.stepApi {R} {p : Pool} (h : AInv R p) (hmc : MC p) (a : Nat) : AInv R (p.stepApi a) := by
   unfold Pool.stepApi
   split
   · exact h
@@ -197,8 +229,8 @@ theorem AInv.stepApi {R} {p : Pool} (h : AInv R p) (a : Nat) : AInv R (p.stepApi
       have h0 := h.modApi a (fun x => { x with sched := false })
       split
       · exact h0
-      · exact h0.flushStage1 a _
-      · exact h0.gacStage1 a _
+      · exact h0.flushStage1 hmc a _
+      · exact h0.gacStage1 hmc a _
       · exact h0.untilClosedStart a
       · exact h0.finishApi a _
       · split
